@@ -234,3 +234,59 @@ Theorem C07_source_constants :
   ascii_bytes Gen.Consts.keystorev3_prfHmacSHA256 = Keystore.Model.prfHmacSHA256.
 Proof. vm_compute. repeat split; reflexivity. Qed.
 Print Assumptions C07_source_constants.
+
+(* 6. (round 4) Wallets that were READ are written back as standard documents too.  Theorem 1 covers
+      wallets made by the constructors; this is the counterpart for every wallet ReadWalletFile returns --
+      from a scrypt or a PBKDF2 file, strictly or leniently formed (case variants of member names,
+      duplicate members, null members, 0x-prefixed hex: whatever encoding/json reads): JSON() of the
+      returned wallet, after any Metadata() assignments, is a document the independent V3 specification
+      (the full standard, cipher test included) decrypts to the same key, provided the file declared
+      aes-128-ctr (the code copies the cipher member and never checks it: known finding
+      C15/cipher-ignored; without that proviso the statement holds for [v3_decrypt_gen false], see
+      C15_lenient_read_then_strict).  Laws used: the UUID parser returns 16 bytes. *)
+From FFS Require Keystore.TotalProofs6 Keystore.TotalProofs7 Keystore.ProofsReread.
+
+Theorem C07_read_wallet_is_standard :
+  forall (P : prims), TotalProofs6.uuid_parse_16 P ->
+  forall (t : json) (pw : bytes) (w : wallet) (extras : list (bytes * json)),
+    read_wallet_tree P t pw = Ok w -> cc_cipher (w_crypto w) = cipherAES128ctr ->
+    v3_decrypt P (JSON_tree (assign_all w extras)) pw = Ok (PrivateKey w).
+Proof. exact ProofsReread.read_wallet_is_standard. Qed.
+Print Assumptions C07_read_wallet_is_standard.
+
+(* ... and that document is read back to the same key (and, with the String/Parse inverse law of the
+   UUID library, the same id): a round trip for read wallets, at the level of trees.  The guards are the
+   ones of theorem 3 on the re-marshalled document, i.e. on the metadata only (no entry whose key is a
+   case variant of a struct field name -- known finding C07/metadata-casefold-core-field --, numbers
+   fit float64); there is no guard on the file the wallet came from. *)
+Theorem C07_read_wallet_reread :
+  forall (P : prims), crypto_laws P -> uuid_accepts_text P -> TotalProofs6.uuid_parse_16 P ->
+  forall (t : json) (pw : bytes) (w : wallet) (extras : list (bytes * json)),
+    read_wallet_tree P t pw = Ok w ->
+    let w' := assign_all w extras in
+    unambiguous (JSON_tree w') = true -> nums_ok P (JSON_tree w') = true ->
+    exists w2, read_wallet_tree P (JSON_tree w') pw = Ok w2 /\ PrivateKey w2 = PrivateKey w /\
+               ((forall u, length u = 16%nat -> uuid_parse P (uuid_string u) = Some u) -> GetID w2 = GetID w).
+Proof. exact ProofsReread.read_wallet_reread. Qed.
+Print Assumptions C07_read_wallet_reread.
+
+Example C07_read_wallet_reread_nonvacuous :
+  crypto_laws TotalProofs7.toy16 /\ uuid_accepts_text TotalProofs7.toy16 /\ TotalProofs6.uuid_parse_16 TotalProofs7.toy16 /\
+  match ProofsReread.lenient_doc2 with
+  | Some t =>
+      ReadTypes.v3_wellformed t = false /\ v3_decrypt_gen false TotalProofs7.toy16 t [x70; x77] = Err SInvalid /\
+      match read_wallet_tree TotalProofs7.toy16 t [x70; x77] with
+      | Ok w =>
+          let w' := assign_all w [(ascii_bytes "note", JStr (ascii_bytes "x"))] in
+          cc_cipher (w_crypto w) = cipherAES128ctr /\
+          v3_decrypt TotalProofs7.toy16 (JSON_tree w') [x70; x77] = Ok [x01; x02; x03] /\
+          unambiguous (JSON_tree w') = true /\ nums_ok TotalProofs7.toy16 (JSON_tree w') = true /\
+          match read_wallet_tree TotalProofs7.toy16 (JSON_tree w') [x70; x77] with
+          | Ok w2 => PrivateKey w2 = [x01; x02; x03]
+          | _ => False
+          end
+      | _ => False
+      end
+  | None => False
+  end.
+Proof. exact ProofsReread.read_wallet_reread_nonvacuous. Qed.
